@@ -352,7 +352,7 @@ func (e *env) random(seed uint64, idx int) {
 		return nil
 	}
 	var timers sync.WaitGroup
-	dl := time.After(20 * time.Second)
+	dl := time.After(60 * time.Second)
 	for got := 0; got < expect; {
 		select {
 		case q := <-s.reqs:
@@ -383,7 +383,7 @@ func (e *env) random(seed uint64, idx int) {
 			qq := q
 			time.AfterFunc(after, func() { defer timers.Done(); s.answer(qq) })
 		case <-dl:
-			e.r.InfraError = s.name + ": peer did not receive all requests"
+			e.blocked(s.name + ": peer did not receive all requests")
 			return
 		}
 	}
@@ -408,8 +408,8 @@ func (e *env) random(seed uint64, idx int) {
 	select {
 	case q := <-s.reqs:
 		s.answer(q)
-	case <-time.After(20 * time.Second):
-		e.r.InfraError = s.name + ": peer did not receive the probe"
+	case <-time.After(60 * time.Second):
+		e.blocked(s.name + ": peer did not receive the probe")
 		return
 	}
 	wedged := false
@@ -533,12 +533,12 @@ func (e *env) forcedWedge() {
 	select {
 	case q := <-s.reqs:
 		s.answer(q) // at once: the response is there long before the deadline
-	case <-time.After(20 * time.Second):
-		e.r.InfraError = s.name + ": peer did not receive the OPN request"
+	case <-time.After(60 * time.Second):
+		e.blocked(s.name + ": peer did not receive the OPN request")
 		return
 	}
-	if hold.WaitReached(20*time.Second) == nil {
-		e.r.InfraError = s.name + ": dispatcher did not pop the OPN response"
+	if hold.WaitReached(60*time.Second) == nil {
+		e.blocked(s.name + ": dispatcher did not pop the OPN response")
 		return
 	}
 	select {
@@ -548,7 +548,7 @@ func (e *env) forcedWedge() {
 		return
 	}
 	hold.Release()
-	if s.ctl.WaitEvent(20*time.Second, func(ev *h.SendEv) bool { return ev.Name == "cl.block" && ev.Arg(0) == s.sc.VerifRcvLocker() }) == nil {
+	if s.ctl.WaitEvent(60*time.Second, func(ev *h.SendEv) bool { return ev.Name == "cl.block" && ev.Arg(0) == s.sc.VerifRcvLocker() }) == nil {
 		e.r.Notes = append(e.r.Notes, s.name+": dispatcher did not block at the gate")
 	}
 	probe := &call{k: 1, timeout: 300 * time.Millisecond}
@@ -558,8 +558,8 @@ func (e *env) forcedWedge() {
 	select {
 	case q := <-s.reqs:
 		s.answer(q)
-	case <-time.After(20 * time.Second):
-		e.r.InfraError = s.name + ": peer did not receive the probe"
+	case <-time.After(60 * time.Second):
+		e.blocked(s.name + ": peer did not receive the probe")
 		return
 	}
 	<-probe.done
@@ -599,8 +599,8 @@ func (e *env) forcedLeak() {
 	c := &call{k: 0, plan: "midcancel", timeout: time.Second}
 	c.ctx, c.cancel = context.WithCancel(context.Background())
 	e.runCall(s, c)
-	if hold.WaitReached(20*time.Second) == nil {
-		e.r.InfraError = s.name + ": sender did not reach send.numbered"
+	if hold.WaitReached(60*time.Second) == nil {
+		e.blocked(s.name + ": sender did not reach send.numbered")
 		return
 	}
 	c.cancel()
@@ -653,8 +653,8 @@ func (e *env) renewAfterFailed() {
 	e.runCall(s, first)
 	select {
 	case <-s.reqs: // not answered
-	case <-time.After(20 * time.Second):
-		e.r.InfraError = s.name + ": peer did not receive the first OPN request"
+	case <-time.After(60 * time.Second):
+		e.blocked(s.name + ": peer did not receive the first OPN request")
 		return
 	}
 	select {
@@ -670,8 +670,8 @@ func (e *env) renewAfterFailed() {
 	case q := <-s.reqs:
 		s.answer(q)
 	case <-second.done:
-	case <-time.After(20 * time.Second):
-		e.r.InfraError = s.name + ": peer did not receive the second OPN request"
+	case <-time.After(60 * time.Second):
+		e.blocked(s.name + ": peer did not receive the second OPN request")
 		return
 	}
 	<-second.done
@@ -682,7 +682,7 @@ func (e *env) renewAfterFailed() {
 	case q := <-s.reqs:
 		s.answer(q)
 	case <-probe.done:
-	case <-time.After(20 * time.Second):
+	case <-time.After(60 * time.Second):
 	}
 	<-probe.done
 	evs := s.ctl.Events()
@@ -798,6 +798,27 @@ func (e *env) corpus() {
 	}
 }
 
+// blocked records that the implementation did not get to a point it has to reach (or did something it must
+// not do) within the generous time allowed: the scenario is the failing input. Only trouble that says nothing
+// about the library (sockets, keys, the driver, a machine too slow for a timing verdict) is reported as infra.
+func (e *env) blocked(what string) {
+	e.r.Fail(what, "", "the implementation did not complete this step (it blocks, or the step got lost): "+what)
+}
+
+// hasNew: an unclassified oracle failure or a model disagreement has been recorded — the verdict of the run is
+// settled, the remaining (real-time) scenarios are skipped so that the failing input is reported quickly.
+func (e *env) hasNew() bool {
+	if len(e.r.Disagreements) > 0 {
+		return true
+	}
+	for _, f := range e.r.OracleFailures {
+		if f.Sig == "" {
+			return true
+		}
+	}
+	return false
+}
+
 func main() {
 	o := h.ParseOpts()
 	r := h.NewResult("C19", o)
@@ -832,18 +853,18 @@ func main() {
 		return
 	}
 	e.forcedWedge()
-	if r.InfraError == "" {
+	if r.InfraError == "" && !e.hasNew() {
 		e.forcedLeak()
 	}
-	if r.InfraError == "" {
+	if r.InfraError == "" && !e.hasNew() {
 		e.renewAfterFailed()
 	}
-	if r.InfraError == "" {
+	if r.InfraError == "" && !e.hasNew() {
 		e.stalledPeer()
 	}
 	t0 := time.Now()
 	n := o.N(40, 1200)
-	for i := 0; i < n && r.InfraError == ""; i++ {
+	for i := 0; i < n && r.InfraError == "" && !e.hasNew(); i++ {
 		e.random(o.Seed, i)
 		if !o.Thorough() && time.Since(t0) > 45*time.Second {
 			r.Notes = append(r.Notes, fmt.Sprintf("stopped after %d scenarios (time budget)", i+1))
